@@ -67,7 +67,9 @@ func checkEvictionShortfall(c *Ctx, rule string) {
 		}
 	}
 	for _, name := range []string{"Enqueue", "EnqueueBatch"} {
-		if fn := p.Func("queue", "(*MemoryStore)."+name); fn != nil {
+		if fn := p.Orig(p.Func("queue", "(*MemoryStore)."+name)); fn != nil {
+			// (the victim selector is named by its role — a method taking the number wanted and returning ids — so the
+			// operation is analysed as written, not through its inlined view)
 			for _, ci := range allCalls(fn, nil) {
 				g := ci.Common().StaticCallee()
 				if g == nil || !IsModuleFunc(g) || g.Signature.Recv() == nil {
